@@ -106,6 +106,8 @@ def scripts(pa, pb, ptun, pclosed, auth):
     S.append(('reverse proxy', lambda tag: [('send', b'GET /a/' + tag + b' HTTP/1.1\r\nHost: front\r\nX-Tag: ' + tag + b'\r\n\r\n'), ('read',), ('close',)]))
     S.append(('reverse proxy keep-alive x2', lambda tag: [('send', b'GET /b/1' + tag + b' HTTP/1.1\r\nHost: front\r\nX-Tag: ' + tag + b'\r\n\r\n'), ('read',),
                                                           ('send', b'GET /b/2' + tag + b' HTTP/1.1\r\nHost: front\r\nX-Tag: ' + tag + b'\r\n\r\n'), ('read',), ('close',)]))
+    S.append(('static file 300 KiB', lambda tag: [('send', b'GET /big.bin?t=' + tag + b' HTTP/1.1\r\nHost: w\r\n\r\n'), ('read',), ('read',), ('close',)]))
+    S.append(('static file small', lambda tag: [('send', b'GET /small.txt?t=' + tag + b' HTTP/1.1\r\nHost: w\r\n\r\n'), ('read',), ('read',), ('close',)]))
     S.append(('half-close after request', lambda tag: [('send', fwd(b'GET', pb, b'/h')(tag)), ('shut',), ('read',), ('read',), ('close',)]))
     S.append(('truncated request then close', lambda tag: [('send', fwd(b'POST', pa, b'/t', b'0123456789')(tag)[:-4]), ('sleep', 0.2), ('close',)]))
     if auth:
@@ -115,13 +117,17 @@ def scripts(pa, pb, ptun, pclosed, auth):
     return S
 
 
+STATIC_DIR = {'path': ''}
+
+
 def origin_behaviour_http(label):
     return None
 
 
 def run_mode(mode, nacc, nwork, auth, origins, plan, out):
     oa, ob, otun, pclosed = origins
-    extra = ['--enable-web-server', '--enable-reverse-proxy', '--plugins', 'harness.realplugins.RevToOrigin', '--timeout', '5']
+    extra = ['--enable-web-server', '--enable-reverse-proxy', '--plugins', 'harness.realplugins.RevToOrigin', '--timeout', '5',
+             '--enable-static-server', '--static-server-dir', STATIC_DIR['path']]
     if auth:
         extra += ['--basic-auth', 'u:p']
     try:
@@ -232,6 +238,13 @@ def run(chk):
     s.bind(('127.0.0.1', 0))
     pclosed = s.getsockname()[1]
     s.close()
+    import os
+    import shutil
+    import tempfile
+    STATIC_DIR['path'] = tempfile.mkdtemp(prefix='c17-static-')
+    r2 = random.Random(7)
+    open(os.path.join(STATIC_DIR['path'], 'big.bin'), 'wb').write(bytes(r2.getrandbits(8) for _ in range(300 * 1024)))     # incompressible
+    open(os.path.join(STATIC_DIR['path'], 'small.txt'), 'wb').write(b'a small static file\n')
     try:
         combos = [(1, 1, False), (2, 2, True)] if quick else [(1, 1, False), (2, 2, True), (4, 4, False), (1, 2, True), (2, 1, False)]
         tagn = [0]
@@ -275,6 +288,7 @@ def run(chk):
     finally:
         for o in (oa, ob, otun):
             o.stop()
+        shutil.rmtree(STATIC_DIR['path'], ignore_errors=True)
     for c in cases:
         if c['kind'] == 'modes':
             # three proxies served the same tag: the origin must have seen it in exactly 3 identical connections (or 0)
